@@ -352,8 +352,40 @@ pub fn run(tier: Tier) -> Report {
         rep.acc.merge(acc);
         base += total;
     }
+    // position independence at the branch points: a curve evaluated in blocks (SIMD, unrolled, banded)
+    // with a separate tail may treat a value that sits exactly on a branch threshold differently in the
+    // block and in the tail - both results inside the budget, but not the same. Every value within
+    // 256 ulps of 0, 1 and each threshold fills a 19-pixel image; all 57 outputs must be bit-identical.
+    {
+        let mut vals: Vec<u32> = vec![];
+        for t in thresholds() {
+            let b = t.to_bits() as i64;
+            for d in -256i64..=256 {
+                let x = b + d;
+                if x >= 0 && x <= ONE_BITS as i64 {
+                    vals.push(x as u32);
+                }
+            }
+        }
+        vals.sort_unstable();
+        vals.dedup();
+        let curves: Vec<TC> = DISTINCT.iter().chain(ALIASES.iter()).copied().collect();
+        let jobs = (curves.len() * 2) as u64;
+        let acc = par_chunks(jobs, 1, |acc, lo, _| {
+            let (t, g) = (curves[lo as usize / 2], lo % 2 == 1);
+            for &b in &vals {
+                if !check_positions(acc, t, g, base + lo, f32::from_bits(b)) {
+                    return;
+                }
+            }
+            acc.states += vals.len() as u64;
+            acc.transitions += vals.len() as u64;
+            acc.bucket("threshold neighbourhoods: result independent of the position in the image", vals.len() as u64);
+        });
+        rep.acc.merge(acc);
+    }
     rep.exhaustive = matches!(dom, Dom::AllF01);
-    rep.bound = format!("14 supported characteristics x 2 directions x {}", dom.describe());
+    rep.bound = format!("14 supported characteristics x 2 directions x {}; every value within 256 ulps of a branch threshold also as a uniform 19-pixel image (bit-identical outputs at all 57 positions)", dom.describe());
     rep.rule = "each x is pushed through the real LinearRgb::try_from(Rgb{t,BT709}) / Rgb::try_from((LinearRgb,t,BT709)) (three values per pixel) and compared with the f64 defining formula (strict < 2.5e-4, PQ linear->gamma < 5.7e-4); aliases must be bit-identical to BT.1886, Linear bit-exact".into();
     rep.assumptions = vec![
         "xvYCC on [0,1] read as the display-referred 2.4 power; PQ scene-referred with BT.2100's own rounded constants (DESIGN §2.3)".into(),
@@ -362,13 +394,45 @@ pub fn run(tier: Tier) -> Report {
     rep.guard_bucket("within budget");
     rep.guard_bucket("alias bit-identical");
     rep.guard_bucket("linear bit-exact identity");
+    rep.guard_bucket("threshold neighbourhoods: result independent of the position in the image");
     rep
+}
+
+/// A 19-pixel image filled with x: all 57 outputs bit-identical. Returns false after a violation.
+fn check_positions(acc: &mut Acc, t: TC, g: bool, idx: u64, x: f32) -> bool {
+    let px = vec![[x; 3]; 19];
+    match crate::img::with_shape((19, 1), || conv_px(t, g, &px)) {
+        Ok(o) => {
+            let first = o[0][0].to_bits();
+            if let Some(i) = (0..57).find(|&i| o[i / 3][i % 3].to_bits() != first) {
+                acc.violation(
+                    idx,
+                    format!("curve-position-dependent tc={t:?} dir={}", dir_name(g)),
+                    format!("x={x:e} (bits {:#x}) converts to {:e} in component 0 of pixel 0 and to {:e} in component {} of pixel {} of a uniform 19x1 image", x.to_bits(), o[0][0], o[i / 3][i % 3], i % 3, i / 3),
+                    json!({"kind":"c03pos","tc":format!("{t:?}"),"to_gamma":g,"x":x.to_bits()}),
+                );
+                return false;
+            }
+            true
+        }
+        Err(e) => {
+            acc.violation(idx, format!("curve-failed tc={t:?} dir={}", dir_name(g)), e, json!({"kind":"c03pos","tc":format!("{t:?}"),"to_gamma":g,"x":x.to_bits()}));
+            false
+        }
+    }
 }
 
 pub fn replay(case: &Value) -> (bool, String) {
     let g = case["to_gamma"].as_bool().unwrap();
     let x = f32::from_bits(case["x"].as_u64().unwrap() as u32);
     let mut acc = Acc::default();
+    if case["kind"] == "c03pos" {
+        check_positions(&mut acc, tc_from_name(case["tc"].as_str().unwrap()), g, 0, x);
+        return match acc.viols.values().next() {
+            Some(v) => (true, format!("{} :: {}", v.key, v.detail)),
+            None => (false, "ok".into()),
+        };
+    }
     // three values make one pixel: the violating value is replayed in the slot it had
     let (items, shape) = crate::img::replay_items(case, vec![x, x, x], &f32s_from);
     crate::img::with_shape(shape, || match case["kind"].as_str().unwrap() {
